@@ -4,6 +4,7 @@
     Only statements; proofs are in [Queues/Proofs*.v]. *)
 From Irismod Require Import Queues.Common.
 From Irismod Require Queues.Htlc Queues.ProofsHtlc.
+From Irismod Require Queues.Random Queues.ProofsRandom.
 
 (** ** HTLC (modules/htlc/abci.go: BeginBlocker; keeper/htlc.go) *)
 Module H.
@@ -66,3 +67,75 @@ Proof.
   repeat (apply Forall_cons; [exact I || reflexivity|]). apply Forall_nil.
 Qed.
 End H.
+
+(** ** random (modules/random/abci.go: BeginBlocker; keeper/keeper.go: RequestRandom) *)
+Module R.
+Import Queues.Random Queues.ProofsRandom.
+
+(** Queue hygiene on every reachable state, after any history of requests (plain or oracle, any
+    interval in the uint64 range, whatever the service module answers), block boundaries (any
+    block time, any set of failing service starts) and service callbacks.  [QInv]: keys are
+    unique; no entry lies behind the current height (it would never be drained); every entry
+    was made by an accepted request; every accepted request is still queued or was drained by
+    the block after its destination height; nothing is drained twice. *)
+Theorem random_queue_hygiene :
+  forall (h0 : Z) (ops : list op), QInv (run (init h0) ops).
+Proof. exact QInv_reachable. Qed.
+Print Assumptions random_queue_hygiene.
+
+(** The begin-blocker cannot abort in a block whose unix time is not 0 — on any state. *)
+Theorem blocks_total_random :
+  forall s t fails, t <> 0 -> snd (step s (BeginBlock t fails)) <> Abort.
+Proof. exact ProofsRandom.blocks_total_random. Qed.
+Print Assumptions blocks_total_random.
+
+(** The hypothesis is necessary: the PRNG divides by the block's unix time. *)
+Theorem blocks_abort_random_at_time_zero :
+  exists s, snd (step s (BeginBlock 0 [])) = Abort.
+Proof. exact ProofsRandom.blocks_abort_random_at_time_zero. Qed.
+Print Assumptions blocks_abort_random_at_time_zero.
+
+(** Exactly once, in the block after the destination height: the drain log has no duplicate
+    entry, every logged drain happened in block [destination + 1] (already past), every
+    accepted request is pending for a height not yet passed or in the log, and the queue holds
+    only accepted requests whose height has not passed. *)
+Theorem processed_exactly_once_random :
+  forall (h0 : Z) (ops : list op),
+  let s := run (init h0) ops in
+  NoDup (map fst (done s))
+  /\ (forall k p, In (k, p) (done s) -> p = fst k + 1 /\ p <= height s)
+  /\ (forall k, In k (made s) ->
+        (exists v, get k (rq s) = Some v /\ height s <= fst k) \/ In (k, fst k + 1) (done s))
+  /\ (forall k v, get k (rq s) = Some v -> In k (made s) /\ height s <= fst k).
+Proof. exact ProofsRandom.processed_exactly_once_random. Qed.
+Print Assumptions processed_exactly_once_random.
+
+(** A drained plain request has its random number, stamped with the destination height. *)
+Theorem plain_requests_fulfilled :
+  forall s t fails s' k c, begin_block s t fails = Some s' -> get k (rq s) = Some (false, c) -> fst k = height s ->
+    get (snd k) (randoms s') = Some (height s).
+Proof. exact ProofsRandom.plain_requests_fulfilled. Qed.
+Print Assumptions plain_requests_fulfilled.
+
+(** A drained oracle request whose service start did not fail is registered under its context id. *)
+Theorem oracle_requests_handed_over :
+  forall s t s' k ctx, begin_block s t [] = Some s' -> get k (rq s) = Some (true, ctx) -> fst k = height s ->
+    In ctx (oreqs s').
+Proof. exact ProofsRandom.oracle_requests_handed_over. Qed.
+Print Assumptions oracle_requests_handed_over.
+
+(** The interval guard (fix 7353d40) is what makes [r_future] hold: a request whose destination
+    wraps below the current height is rejected. *)
+Example random_wrapping_interval_rejected :
+  snd (step (init 7) (Request 1 (two64 - 3) false 0 true)) = Rej
+  /\ snd (step (init 7) (Request 1 (two63 - 7) false 0 true)) = Rej
+  /\ snd (step (init 7) (Request 1 (two63 - 8) false 0 true)) = Ok.
+Proof. vm_compute. auto. Qed.
+
+Example random_nonvacuous :
+  let ops := [Request 0 2 false 0 true; Request 1 2 true 5 true; BeginBlock 100 []; Request 0 1 false 0 true;
+              BeginBlock 105 []; BeginBlock 110 []; BeginBlock 115 []] in
+  let s := run (init 1) ops in
+  rq s = [] /\ map snd (done s) = [4; 4; 4] /\ oreqs s = [5] /\ map snd (randoms s) = [3; 3].
+Proof. vm_compute. auto. Qed.
+End R.
